@@ -121,6 +121,9 @@ type Morass struct {
 
 	errLock sync.Mutex
 	_err    error
+
+	// writers tracks the chunk writers that have been started.
+	writers sync.WaitGroup
 }
 
 // New creates a new Morass. prefix and dir are passed to ioutil.TempDir. chunkSize specifies
@@ -180,6 +183,7 @@ func (m *Morass) Push(e LessInterface) error {
 
 	if len(m.chunk) == m.chunkSize {
 		m.writable <- m.chunk
+		m.writers.Add(1)
 		go m.write()
 		m.chunk = <-m.pool
 		if err := m.err(); err != nil {
@@ -201,6 +205,7 @@ func (m *Morass) write() {
 	writing := <-m.writable
 	defer func() {
 		m.pool <- writing[:0]
+		m.writers.Done()
 	}()
 
 	sort.Sort(writing)
@@ -250,6 +255,9 @@ func (m *Morass) Len() int64 { return m.len }
 // Finalise is called to indicate that the last element has been pushed on to the Morass
 // and write out final data.
 func (m *Morass) Finalise() error {
+	// All chunks handed to background writers must be on disk and
+	// their files registered before the files are read back.
+	m.writers.Wait()
 	if err := m.err(); err != nil {
 		return err
 	}
@@ -262,6 +270,7 @@ func (m *Morass) Finalise() error {
 			if len(m.chunk) > 0 {
 				m.writable <- m.chunk
 				m.chunk = nil
+				m.writers.Add(1)
 				m.write()
 				if err := m.err(); err != nil {
 					return err
@@ -293,6 +302,7 @@ func (m *Morass) Finalise() error {
 
 // Clear resets the Morass to an empty state.
 func (m *Morass) Clear() error {
+	m.writers.Wait()
 	var err error
 	for _, f := range m.files {
 		err = f.file.Close()
